@@ -6,7 +6,8 @@
 (* Relations on events  diff(measure, type, c1, c2, out12, out21)  and        *)
 (* wcag(type, c1, c2, lum1, lum2, ratio12, ratio21, predicates), written from  *)
 (* the publications over the exact values the code consumed and produced       *)
-(* (104-bit fixed point, modules Fx / Trig / ExpSeries).  A relation returns    *)
+(* (exact dyadics of module Fx; 104-bit fixed point of module ExpSeries).  A     *)
+(* relation returns                                                             *)
 (* the number of BITS OF AGREEMENT between the recorded result and the          *)
 (* defining formula; the trace specification compares it with a threshold per    *)
 (* measure class and component type.                                          *)
@@ -24,6 +25,7 @@
 (*       CAM16-UCS  out = 1.41 DE^0.63   i.e.  out^200 = 1.41^200 (sum d^2)^63       *)
 (*       CIEDE2000  out = 1.43 DE00^0.70 i.e.  out^10  = 1.43^10  DE00^7             *)
 (*   HyAB (Abasi, Amani Tehran, Fairchild 2019): out = |dL| + sqrt(da^2 + db^2)     *)
+(*     (the root is computed here: better conditioned than (out - |dL|)^2)          *)
 (*   polar (Lch, Jmh) = rectangular on the converted colours                     *)
 (*   CIEDE2000: the complete formula of G. Sharma, W. Wu, E. N. Dalal, "The         *)
 (*     CIEDE2000 color-difference formula: implementation notes, supplementary      *)
@@ -39,7 +41,6 @@ AgreeBits(x, y, scale) == IF x = y THEN 200
                           ELSE LET d == IAbs(ISub(x, y)) IN BitLen(scale[2]) - BitLen(d[2])
 MinI(a, b) == IF a <= b THEN a ELSE b
 MaxI(a, b) == IF a >= b THEN a ELSE b
-AtLeast(s, n) == FxMax(s, FxEps(n))              \* keeps a scale away from zero: 2^-n is the absolute floor
 FxDy(f) == <<f[1], IF f[1] = 0 THEN 0 ELSE -FL, f[2]>>       \* a fixed-point value as an exact dyadic
 DyOne == DyFromInt(1)
 
